@@ -33,6 +33,9 @@ type job struct {
 	N      int
 	// tx only
 	Case *txCase
+	// deterministic series
+	Fixed         bool
+	Shard, Shards int
 }
 
 type targetAgg struct {
@@ -200,6 +203,7 @@ func (p *parent) runBatch(j job) {
 	for from < end {
 		args := []string{"-c16child", "-target", j.Target, "-seed", fmt.Sprint(r.Seed), "-batch", fmt.Sprint(j.Batch),
 			"-from", fmt.Sprint(from), "-n", fmt.Sprint(end - from), "-scratch", p.scratch}
+		args = append(args, fixedFlags(j)...)
 		var res evid.ChildResult
 		for attempt := 0; attempt < 3; attempt++ {
 			res = evid.Child(args, nil, p.childTimeout())
@@ -245,8 +249,8 @@ func (p *parent) runBatch(j job) {
 			_, in, ok := readProgress(progressPath(p.scratch, j.Target, j.Batch))
 			hangs := 0
 			for k := 0; k < 3; k++ {
-				sres := evid.Child([]string{"-c16child", "-target", j.Target, "-seed", fmt.Sprint(r.Seed), "-batch", fmt.Sprint(j.Batch),
-					"-from", fmt.Sprint(hangIdx), "-n", "1", "-scratch", p.scratch}, nil, 10*time.Minute)
+				sres := evid.Child(append([]string{"-c16child", "-target", j.Target, "-seed", fmt.Sprint(r.Seed), "-batch", fmt.Sprint(j.Batch),
+					"-from", fmt.Sprint(hangIdx), "-n", "1", "-scratch", p.scratch}, fixedFlags(j)...), nil, 10*time.Minute)
 				fired := sres.TimedOut
 				for _, rec := range parseRecs(sres.Out) {
 					if rec.Kind == "hang" {
@@ -306,6 +310,13 @@ func (p *parent) runBatch(j job) {
 			}
 		}
 	}
+}
+
+func fixedFlags(j job) []string {
+	if !j.Fixed {
+		return nil
+	}
+	return []string{"-fixed", "-shard", fmt.Sprint(j.Shard), "-shards", fmt.Sprint(j.Shards)}
 }
 
 // overflowFrame names the function that recursed.
@@ -368,6 +379,9 @@ func childEntry(args []string) {
 	n := fs.Int("n", 0, "")
 	scratch := fs.String("scratch", os.TempDir(), "")
 	solo := fs.String("solo", "", "file with one input (replay)")
+	fixed := fs.Bool("fixed", false, "deterministic series")
+	shard := fs.Int("shard", 0, "")
+	shards := fs.Int("shards", 1, "")
 	txcase := fs.String("txcase", "", "tx case json")
 	_ = fs.Parse(args)
 	// A decoder that needs more than this much stack for an input of at most
@@ -398,7 +412,7 @@ func childEntry(args []string) {
 		soloIn = &Input{Data: data, Aux: w.Aux, Op: w.Op}
 		*n = 1
 	}
-	childMain(*target, *seed, *batch, *from, *n, *scratch, soloIn)
+	childMain(*target, *seed, *batch, *from, *n, *scratch, soloIn, fixedArgs{on: *fixed && soloIn == nil, shard: *shard, shards: *shards})
 	os.Exit(0)
 }
 
@@ -440,6 +454,13 @@ func main() {
 			jobs = append(jobs, job{Target: t, Batch: b, From: 0, N: min(batchSize, n-from)})
 		}
 	}
+	// The deterministic boundary series of the decoder targets (same in both tiers).
+	for _, t := range targetOrder {
+		k := fixedShards[t]
+		for sh := 0; sh < k; sh++ {
+			jobs = append(jobs, job{Target: t, Batch: 100000 + sh, From: 0, N: 1 << 30, Fixed: true, Shard: sh, Shards: k})
+		}
+	}
 	if only := os.Getenv("C16_ONLY"); only != "" {
 		// Development aid (not used by run.sh): restrict the run to some targets.
 		var keep []job
@@ -464,6 +485,9 @@ func main() {
 
 // targetScale scales the thorough-tier size of slow targets (quick tier is 20 000 for all).
 var targetScale = map[string]float64{"writelog": 0.25, "hostproto": 0.25, "descriptor": 0.5, "chunk": 0.5, "sgx": 0.5}
+
+// fixedShards is the number of child processes the deterministic series of a target is split over.
+var fixedShards = map[string]int{"node": 4, "proof": 4, "writelog": 4, "commitment": 2, "descriptor": 8, "sgx": 16, "hostproto": 8}
 
 func targetWeight(t string) int {
 	switch t {
